@@ -12,6 +12,7 @@ import (
 	"os"
 	"path/filepath"
 	"runtime"
+	"sync"
 	"sync/atomic"
 	"time"
 
@@ -73,9 +74,57 @@ func runC19Stress() {
 			}
 		}
 	}
+	// shutting one component down while a change is being announced: every OTHER live listener still gets the
+	// change, exactly once
+	rounds2 := 2500
+	if thorough() {
+		rounds2 = 40000
+	}
+	for round := 0; round < rounds2 && len(failures) < 3; round++ {
+		total++
+		const n = 24
+		ev := event.New[int]()
+		var got [n]atomic.Int64
+		unsubs := make([]event.Unsubscribe, n)
+		for i := 0; i < n; i++ {
+			i := i
+			unsubs[i] = ev.Subscribe(func(v int) { got[i].Add(1) })
+		}
+		victim := round % 3 // an early subscriber: its removal shifts the later ones
+		var wg sync.WaitGroup
+		wg.Add(2)
+		go func() { defer wg.Done(); ev.Fire(round) }()
+		go func() {
+			defer wg.Done()
+			for g := 0; g < round%17; g++ {
+				runtime.Gosched()
+			}
+			unsubs[victim]()
+		}()
+		wg.Wait()
+		deadline := time.Now().Add(2 * time.Second)
+		for i := 0; i < n; i++ {
+			if i == victim {
+				continue
+			}
+			for got[i].Load() < 1 && time.Now().Before(deadline) {
+				runtime.Gosched()
+			}
+		}
+		time.Sleep(50 * time.Microsecond)
+		for i := 0; i < n; i++ {
+			if i == victim {
+				continue
+			}
+			if c := got[i].Load(); c != 1 {
+				failures = append(failures, failure{"fire-vs-unsubscribe", round, fmt.Sprintf("listener %d of %d (still subscribed) received the change %d times while listener %d was being unsubscribed", i, n, c, victim)})
+				break
+			}
+		}
+	}
 	out := map[string]any{
 		"harness": "conf/C19stress", "seed": *flagSeed, "tier": *flagTier, "total": total, "distinct": total, "distinct_nontrivial": total,
-		"rule":         "pairs of back-to-back Fire calls on one real Event with a swept scheduling gap (0-63 yields), 1 and 3 listeners; after every pair each listener must end on the second value; running=false with pending>0 = stranded",
+		"rule":         "rounds of a Fire racing with the Unsubscribe of an early subscriber among 24 (every other listener gets the value exactly once); pairs of back-to-back Fire calls on one real Event with a swept scheduling gap (0-63 yields), 1 and 3 listeners; after every pair each listener must end on the second value; running=false with pending>0 = stranded",
 		"distribution": map[string]any{"rounds": map[string]int{"pairs": total}},
 		"samples":      []any{map[string]any{"case": "back-to-back", "listeners": 1}},
 		"files":        []string{}, "readable": []any{},
